@@ -267,6 +267,7 @@ func checkC18(c *Ctx) {
 	c.Clause("every complete configuration example in README.md loads: each scalar lies in the validator's accept region, and every option an enabled section leaves out is acceptable as zero / empty")
 	c.Clause("a pattern taken from the configuration and registered on a ServeMux next to constant patterns (metrics path next to /health) is refused by validation when it equals one of them (the mux would panic at start-up)")
 	c.Clause("no plugin writes into the option map it is given (nil when a chain entry has no config block: a write panics at start-up)")
+	c.Clause("validation looks at the request/trace ID header names and can refuse them (a name that is not an HTTP field name would make every proxied request fail)")
 	c.NotDecided("README prose beyond the enumerations above; yaml.v3 decoding itself; that an accepted configuration yields a working proxy")
 
 	// 1. completeness of validation
@@ -792,6 +793,7 @@ func checkC18(c *Ctx) {
 	c.documentedExamplesAccepted(regions)
 	c.muxPatternsCannotCollide()
 	c.optionMapReadOnly()
+	c.idHeaderNamesValidated()
 
 	// 6. start-up
 	c.mainFatal()
